@@ -1,6 +1,7 @@
 package main
 
 import (
+	"strings"
 	"fmt"
 
 	"github.com/mfcochauxlaberge/jsonapi"
@@ -276,7 +277,75 @@ func (m c02) run(c *Ctx, d *DocSpec) {
 	}
 }
 
+// libraryErrors: error objects built by the library's own constructors from hostile arguments (what a server
+// sends back after refusing a request) survive the round trip member for member.
+func (m c02) libraryErrors(c *Ctx, r *RNG) {
+	long := []string{strings.Repeat("é", 40), strings.Repeat("日本語", 25), strings.Repeat("a", 63) + "😀😀", strings.Repeat("x", 64) + "é", "\"q\" <&> \\ \u0000 \n", strings.Repeat("ab", 500), ""}
+	pick := func() string {
+		if r.Bool() {
+			return r.Pick(long)
+		}
+		return genString(r)
+	}
+	errs := []jsonapi.Error{
+		jsonapi.NewErrInvalidFieldValueInBody(pick(), pick(), pick()), jsonapi.NewErrMalformedFilterParameter(pick()), jsonapi.NewErrBadRequest(pick(), pick()),
+		jsonapi.NewErrInvalidPageNumberParameter(pick()), jsonapi.NewErrInvalidPageSizeParameter(pick()), jsonapi.NewErrDuplicateFieldInFieldsParameter(pick(), pick()),
+		jsonapi.NewErrUnknownFieldInBody(pick(), pick()), jsonapi.NewErrUnknownFieldInURL(pick()), jsonapi.NewErrUnknownParameter(pick()),
+		jsonapi.NewErrUnknownRelationshipInPath(pick(), pick(), pick()), jsonapi.NewErrUnknownTypeInURL(pick()), jsonapi.NewErrUnknownFieldInFilterParameter(pick()),
+		jsonapi.NewErrUnknownOperatorInFilterParameter(pick()), jsonapi.NewErrInvalidValueInFilterParameter(pick(), pick()), jsonapi.NewErrUnknownCollationInFilterParameter(pick()),
+		jsonapi.NewErrUnknownFilterParameterLabel(pick()), jsonapi.NewErrMissingDataMember(), jsonapi.NewErrNotFound(),
+	}
+	errs = errs[r.Intn(6):]
+	show := func(e jsonapi.Error) string {
+		var sb strings.Builder
+		fmt.Fprintf(&sb, "id=%q code=%q status=%q title=%q detail=%q", e.ID, e.Code, e.Status, e.Title, e.Detail)
+		for _, k := range sortedKeys(e.Links) {
+			fmt.Fprintf(&sb, " links.%s=%q", k, fmt.Sprint(e.Links[k]))
+		}
+		for _, k := range sortedKeys(e.Source) {
+			fmt.Fprintf(&sb, " source.%s=%q", k, fmt.Sprint(e.Source[k]))
+		}
+		for _, k := range sortedKeys(e.Meta) {
+			fmt.Fprintf(&sb, " meta.%s=%q", k, fmt.Sprint(e.Meta[k]))
+		}
+		return sb.String()
+	}
+	var out []byte
+	var doc2 *jsonapi.Document
+	var err error
+	if pi := Guard(func() {
+		schema := &jsonapi.Schema{}
+		_ = schema.AddType(jsonapi.Type{Name: "t"})
+		u, _ := jsonapi.NewURLFromRaw(schema, "/t")
+		out, err = jsonapi.MarshalDocument(&jsonapi.Document{Errors: errs}, u)
+		if err == nil {
+			doc2, err = jsonapi.UnmarshalDocument(out, schema)
+		}
+	}); pi != nil {
+		c.Violate("panic@"+pi.Frame+"/"+panicClass(pi.Val)+"/library-errors", "%s", pi)
+		return
+	}
+	c.Count("library_built_error_documents")
+	if err != nil {
+		c.Violate("roundtrip-error/library-errors", "%v; bytes %s", err, clip(string(out), 600))
+		return
+	}
+	if len(doc2.Errors) != len(errs) {
+		c.Violate("errors-count/library-errors", "%d errors came back, %d were sent", len(doc2.Errors), len(errs))
+		return
+	}
+	for i := range errs {
+		if a, b := show(errs[i]), show(doc2.Errors[i]); a != b {
+			c.Violate("error-member/library-built", "error %d built by the library's constructor came back different:\n sent %s\n got  %s", i, clip(a, 700), clip(b, 700))
+			return
+		}
+	}
+}
+
 func (m c02) Case(c *Ctx, r *RNG) {
+	if c.Index%4 == 0 {
+		m.libraryErrors(c, r)
+	}
 	d := genDoc(r, docOpts{MaxPrimary: c.Pick(6, 40), MaxIncluded: c.Pick(6, 40), Errors: true})
 	if c.Index < 2 {
 		c.Sample(d)
